@@ -704,9 +704,10 @@ func MergeRows(_ interface{},
 		}
 	}
 
-	if res.Deleted {
-		return &res
-	}
+	// A deleted row keeps its column values and their write times (they are
+	// not readable while it is deleted): whether a column value survives a
+	// later re-INSERT must not depend on whether the DELETE was merged before
+	// or after the write that set it.
 
 	allKeys := make(map[string]struct{})
 	for k := range r1.ColumnValues {
